@@ -2,7 +2,7 @@
   ptdriver queries of the `mapper` family: `(mapper <query> args…)`.
   `none` = unparsable query.
 
-  Wire format of a heap: `((kind (tag…) ((edge-class child)…) cls) …)`, node i is the
+  Wire format of a heap: `((kind (tag…) ((edge-class child)…) cls attrs) …)`, node i is the
   i-th entry (objects numbered by `id()` in post-order by the Python serialiser).
   An edge selection is given as the list of EXCLUDED `(kind edge-class)` pairs
   (`*` = any kind); everything else is followed.
@@ -13,12 +13,12 @@ import PtModel.Analysis
 namespace Pt
 
 def parseNode : Sx → Option NodeData
-  | .list [.atom kind, .list tags, .list kids, cls] => do
+  | .list [.atom kind, .list tags, .list kids, cls, attrs] => do
     let ts ← tags.mapM Sx.asAtom?
     let ks ← kids.mapM fun
       | .list [.atom l, c] => do some (l, ← c.asNat?)
       | _ => none
-    some { kind := kind, tags := ts, kids := ks, cls := ← cls.asNat? }
+    some { kind := kind, tags := ts, kids := ks, cls := ← cls.asNat?, attrs := ← attrs.asNat? }
   | _ => none
 
 def parseHeap : Sx → Option Heap
